@@ -8,8 +8,10 @@
 // until the end of the session and re-read then, so a pooled buffer recycled under a live value shows.
 //
 // usage: wsrace <N> <procs> <seed> <mix> <rounds>
-//   mix: letters cycled over the N sessions: U upgrader, H http upgrader, D dialer, M messages, Z compression,
-//        K control-frame storm, P writers through the shared writer pool
+//
+//	mix: letters cycled over the N sessions: U upgrader, H http upgrader, D dialer, M messages, Z compression,
+//	     K control-frame storm, P writers through the shared writer pool
+//
 // stdout: same=<0|1> self=<0|1> diff=<index:kind:field|-> sessions=<N> ops=<total>
 // The race detector reports on stderr (GORACE=halt_on_error=0 exitcode=0 is set by the caller).
 package main
@@ -139,7 +141,9 @@ type session struct {
 	ops  int
 }
 
-func (s *session) rec(format string, a ...interface{}) { s.log = append(s.log, fmt.Sprintf(format, a...)) }
+func (s *session) rec(format string, a ...interface{}) {
+	s.log = append(s.log, fmt.Sprintf(format, a...))
+}
 func (s *session) fail(format string, a ...interface{}) {
 	s.bad = append(s.bad, fmt.Sprintf(format, a...))
 }
@@ -307,7 +311,27 @@ func (s *session) upgrader(r *rng, steps int) {
 		var out bytes.Buffer
 		var hs ws.Handshake
 		var err error
-		switch k % 3 {
+		viewCase := false
+		switch k % 4 {
+		case 3:
+			// zero-copy ExtensionCustom (its options are views into the handshake's pooled read
+			// buffer, "valid until Upgrade returns") and an OnBeforeUpgrade hook during which other
+			// sessions get to run whole handshakes: the response must still carry this client's offer
+			viewCase = true
+			u := ws.Upgrader{Protocol: func(p []byte) bool { return string(p) == want },
+				ExtensionCustom: func(v []byte, dst []httphead.Option) ([]httphead.Option, bool) {
+					return httphead.OptionSelector{Flags: httphead.SelectUnique,
+						Check: func(o httphead.Option) bool { return string(o.Name) == "x-sess" }}.Select(v, dst)
+				},
+				OnBeforeUpgrade: func() (ws.HandshakeHeader, error) {
+					for i := 0; i < 4; i++ {
+						runtime.Gosched()
+						time.Sleep(20 * time.Microsecond)
+					}
+					return nil, nil
+				}}
+			hs, err = u.Upgrade(rw{strings.NewReader(req), &out})
+			hs.Extensions = nil // views: not to be read once Upgrade has returned
 		case 0:
 			e := wsflate.Extension{Parameters: wsflate.Parameters{ServerNoContextTakeover: k%2 == 0, ClientMaxWindowBits: wsflate.WindowBits(8 + (s.idx+k)%8)}}
 			u := ws.Upgrader{Protocol: func(p []byte) bool { return string(p) == want }, Negotiate: e.Negotiate}
@@ -326,6 +350,17 @@ func (s *session) upgrader(r *rng, steps int) {
 			headerValue([]byte(resp), "Sec-WebSocket-Accept") == accept(key), headerValue([]byte(resp), "Sec-WebSocket-Protocol"))
 		if err != nil {
 			s.fail("U%d: upgrade failed: %v", k, err)
+		}
+		if viewCase {
+			wantExt := fmt.Sprintf("x-sess;id=s%dk%d", s.idx, k)
+			got := strings.ReplaceAll(headerValue([]byte(resp), "Sec-WebSocket-Extensions"), " ", "")
+			s.rec("U%d respexts=%q", k, got)
+			if got != wantExt {
+				s.fail("U%d: client offered %q, the response answers %q", k, wantExt, got)
+			}
+			if p := headerValue([]byte(resp), "Sec-WebSocket-Protocol"); p != want {
+				s.fail("U%d: response selects protocol %q, negotiated %q", k, p, want)
+			}
 		}
 		kept = append(kept, keptHS{hs, want, optsStr(hs.Extensions)})
 		runtime.Gosched()
